@@ -32,6 +32,22 @@ std::string tohex(std::string_view s) {
     return h;
 }
 
+// raw bit pattern of a double (NaN sign / payload kept, unlike vp::f2h)
+std::string rawd(double x) {
+    uint64_t u;
+    std::memcpy(&u, &x, 8);
+    char b[17];
+    std::snprintf(b, sizeof b, "%016llx", (unsigned long long)u);
+    return b;
+}
+template <class Vec>
+std::string rawv(const Vec &v) {
+    std::string s = std::to_string(v.size());
+    for (Eigen::Index i = 0; i < v.size(); ++i)
+        s += " " + rawd(v(i));
+    return s;
+}
+
 std::string errkind(const std::exception &e) {
     std::string w = e.what();
     if (dynamic_cast<const alpaqa::csv::read_error *>(&e) == nullptr)
@@ -65,8 +81,6 @@ std::string rstate(const R &r) {
 
 // bit patterns of float / long double
 std::string bitsf(float x) {
-    if (std::isnan(x))
-        return "nan";
     uint32_t u;
     std::memcpy(&u, &x, 4);
     char b[9];
@@ -80,8 +94,6 @@ float fbits(const std::string &s) {
     return x;
 }
 std::string bitsl(long double x) {
-    if (std::isnan(x))
-        return "nan";
     unsigned char raw[16] = {};
     std::memcpy(raw, &x, 10);
     char b[21];
@@ -173,6 +185,36 @@ std::string rowsig(const std::string &text, long n, char sep, int calls) {
     return out;
 }
 
+// One row call of scalar type F on a fresh stream, values as raw bit patterns (exhaustive-corruption stage).
+template <class F, class ToBits>
+std::string rowx(const std::string &text, long n, char sep, ToBits tb) {
+    std::istringstream is(text);
+    std::string out;
+    try {
+        if (n >= 0) {
+            Eigen::VectorX<F> v = Eigen::VectorX<F>::Constant(n, F(-99));
+            alpaqa::csv::read_row_impl<F>(is, v, sep);
+            out = "ok " + std::to_string(n);
+            for (long i = 0; i < n; ++i)
+                out += " " + tb(v(i));
+        } else {
+            auto w = alpaqa::csv::read_row_std_vector<F>(is, sep);
+            out = "ok " + std::to_string(w.size());
+            for (auto x : w)
+                out += " " + tb(x);
+        }
+    } catch (std::exception &e) {
+        out = errkind(e);
+    }
+    return out + " | " + sstate(is);
+}
+
+// float_to_str<F>(value, precision) (precision < -100: the default argument)
+template <class F>
+std::string fts(F v, long prec) {
+    return prec < -100 ? alpaqa::float_to_str<F>(v) : alpaqa::float_to_str<F>(v, (int)prec);
+}
+
 } // namespace
 
 int main() {
@@ -205,7 +247,7 @@ int main() {
                 char sep = unhex(t.tok()).at(0);
                 try {
                     double v = rd.read(*is, sep);
-                    out      = "ok " + vp::f2h(v);
+                    out      = "ok " + rawd(v);
                 } catch (std::exception &e) {
                     out = errkind(e);
                 }
@@ -230,7 +272,7 @@ int main() {
                         alpaqa::csv::read_row(*is, Eigen::Ref<Eigen::VectorXd>(v));
                     else
                         alpaqa::csv::read_row(*is, Eigen::Ref<Eigen::VectorXd>(v), sep);
-                    out = "ok " + vp::fmtv(v);
+                    out = "ok " + rawv(v);
                     last_failed = false;
                 } catch (std::exception &e) {
                     out = errkind(e);
@@ -243,7 +285,7 @@ int main() {
                     auto w = alpaqa::csv::read_row_std_vector<double>(*is, sep);
                     out    = "ok " + std::to_string(w.size());
                     for (double x : w)
-                        out += " " + vp::f2h(x);
+                        out += " " + rawd(x);
                     last_failed = false;
                 } catch (std::exception &e) {
                     out = errkind(e);
@@ -308,12 +350,12 @@ int main() {
                             if (pass == 0) {
                                 Eigen::VectorXd v = Eigen::VectorXd::Constant(ncols, -12345.0);
                                 alpaqa::csv::read_row(in, Eigen::Ref<Eigen::VectorXd>(v), sep.at(0));
-                                out += " | ok " + vp::fmtv(v);
+                                out += " | ok " + rawv(v);
                             } else {
                                 auto w = alpaqa::csv::read_row_std_vector<double>(in, sep.at(0));
                                 out += " | ok " + std::to_string(w.size());
                                 for (double x : w)
-                                    out += " " + vp::f2h(x);
+                                    out += " " + rawd(x);
                             }
                         } catch (std::exception &e) {
                             out += " | " + errkind(e);
@@ -336,6 +378,33 @@ int main() {
                     out = rowsig<long double>(tx, n, sep, calls);
                 else if (ty == "i")
                     out = rowsig<Eigen::Index>(tx, n, sep, calls);
+                else
+                    throw std::runtime_error("type");
+            } else if (op == "rowX") {
+                // rowX <d|f|l> <n | -1 = std_vector> <sephex> <texthex>
+                std::string ty = t.tok();
+                long n         = std::stol(t.tok());
+                char sep       = unhex(t.tok()).at(0);
+                std::string tx = unhex(t.tok());
+                if (ty == "d")
+                    out = rowx<double>(tx, n, sep, rawd);
+                else if (ty == "f")
+                    out = rowx<float>(tx, n, sep, bitsf);
+                else if (ty == "l")
+                    out = rowx<long double>(tx, n, sep, bitsl);
+                else
+                    throw std::runtime_error("type");
+            } else if (op == "fts") {
+                // fts <d|f|l> <precision | -999 = default> <bits>
+                std::string ty = t.tok();
+                long prec      = std::stol(t.tok());
+                std::string b  = t.tok();
+                if (ty == "d")
+                    out = tohex(fts<double>(vp::h2f(b), prec));
+                else if (ty == "f")
+                    out = tohex(fts<float>(fbits(b), prec));
+                else if (ty == "l")
+                    out = tohex(fts<long double>(lbits(b), prec));
                 else
                     throw std::runtime_error("type");
             } else if (op == "rtf") {
